@@ -441,16 +441,153 @@ Proof. intros H Hr.
     intros o' Ho'; apply P; now right. Qed.
 
 (* ================================================================== *)
+(* CAuthSeq: calls interleaved with later Trust / Distrust calls on   *)
+(* one running peer (codes 1, 11)                                     *)
+(* ================================================================== *)
+Lemma check_case_authseq id m caller ep steps : check_case (id, CAuthSeq m caller ep steps) =
+  fail1 id (seq_forall (fun mt p => Bool.eqb (seq_model_call caller ep mt) p) m steps) ++
+  fail11 id (seq_forall (seq_call_okb caller ep) m steps).
+Proof. reflexivity. Qed.
+
+Lemma no11_fail11 id b l : no_code 11%N (l ++ fail11 id b) -> b = true.
+Proof. destruct b; [reflexivity|]. intros H. exfalso. apply (H (id, 11%N, 0%N)); [|reflexivity].
+  apply in_or_app. right. now left. Qed.
+
+(* the trust state after a prefix: raft ignores Trust / Distrust, crdt has the operations of the prefix appended to its history *)
+Lemma mode_after_raft pre : mode_after MRaft pre = MRaft.
+Proof. unfold mode_after. induction pre as [|[p|o] r IH]; cbn [fold_left mode_op]; auto. Qed.
+Lemma mode_after_crdt star l pre : forall h, mode_after (MCrdt star l h) pre = MCrdt star l (h ++ ops_of pre).
+Proof. unfold mode_after. induction pre as [|[p|o] r IH]; intros h; cbn [fold_left mode_op ops_of flat_map app].
+  - now rewrite app_nil_r.
+  - apply IH.
+  - rewrite IH. now rewrite <- app_assoc. Qed.
+Lemma mode_after_app m pre s post :
+  mode_after m (pre ++ s :: post) = mode_after (match s with SOp o => mode_op (mode_after m pre) o | SCall _ => mode_after m pre end) post.
+Proof. unfold mode_after. rewrite fold_left_app. reflexivity. Qed.
+
+Lemma trust_state_after_steps_l star l h pre q :
+  trust_of (mode_after (MCrdt star l h) pre) q = trust_crdt (mk_crdt_cfg star 0%N l) (h ++ ops_of pre) q /\
+  trust_of (mode_after MRaft pre) q = true.
+Proof. rewrite mode_after_crdt, mode_after_raft. split; reflexivity. Qed.
+
+(* the k-th call of a sequence is judged / annotated with the state after the steps before it *)
+Lemma seq_forall_split g : forall pre m p post,
+  seq_forall g m (pre ++ SCall p :: post) = true -> g (mode_after m pre) p = true.
+Proof. induction pre as [|[p0|o] r IH]; intros m p post H; cbn [app seq_forall] in H.
+  - apply andb_true_iff in H. exact (proj1 H).
+  - apply andb_true_iff in H. exact (IH m p post (proj2 H)).
+  - exact (IH (mode_op m o) p post H). Qed.
+
+Lemma seq_annot_split f : forall pre m p post,
+  seq_annot f m (pre ++ SCall p :: post) =
+  seq_annot f m pre ++ SCall (f (mode_after m pre)) :: seq_annot f (mode_after m pre) post.
+Proof. induction pre as [|[p0|o] r IH]; intros m p post; cbn [app seq_annot].
+  - reflexivity.
+  - f_equal. exact (IH m p post).
+  - f_equal. exact (IH (mode_op m o) p post). Qed.
+
+Lemma seq_forall_annot f g : (forall m, g m (f m) = true) -> forall steps m, seq_forall g m (seq_annot f m steps) = true.
+Proof. intros H. induction steps as [|[p|o] r IH]; intros m; cbn [seq_annot seq_forall]; auto.
+  rewrite H. apply IH. Qed.
+
+Lemma seq_forall_eqb_annot f : forall steps m,
+  seq_forall (fun mt p => Bool.eqb (f mt) p) m steps = true -> seq_annot f m steps = steps.
+Proof. induction steps as [|[p|o] r IH]; intros m H; cbn [seq_annot seq_forall] in *; auto.
+  - apply andb_true_iff in H. destruct H as [H1 H2]. apply eqb_prop in H1. rewrite H1. f_equal. now apply IH.
+  - f_equal. now apply IH. Qed.
+
+(* the model's verdict on a call, read off the specification tables: every trust state, caller, endpoint name *)
+Lemma seq_model_call_spec caller ep mt : caller <> 0%N ->
+  let v := seq_model_call caller ep mt in
+  v = authorize policy (trust_of mt caller) ep /\
+  (trust_of mt caller = false -> ~ In ep open_spec -> v = false) /\
+  (In ep local_only_spec -> v = false) /\
+  (In ep trusted_spec -> v = trust_of mt caller) /\
+  (In ep open_spec -> v = true).
+Proof. intros Hc. apply N.eqb_neq in Hc. cbv zeta. unfold seq_model_call, call_allowed. rewrite Hc. cbn [orb].
+  split; [reflexivity|]. split; [|split; [|split]].
+  - intros Ht Ho. rewrite Ht. destruct (authorize policy false ep) eqn:Ea; [|reflexivity].
+    exfalso. apply Ho. now apply untrusted_only_open_l.
+  - intros Hl. exact (local_only_refused_l ep Hl (fun _ => trust_of mt caller) caller).
+  - intros Ht. now apply trusted_spec_l.
+  - intros Ho. now apply open_spec_l. Qed.
+
+(* for every configuration, history and sequence of (call | trust op) steps: the verdict the model gives on a call is authF with
+   the trust state AT THAT MOMENT (the configured state, the earlier history and the operations made before the call) - a remote
+   caller not trusted then is refused on every endpoint that is not open, whatever it was answered before *)
+Lemma auth_follows_trust_changes_l m caller ep pre p post : caller <> 0%N ->
+  let mt := mode_after m pre in
+  let v := seq_model_call caller ep mt in
+  seq_annot (seq_model_call caller ep) m (pre ++ SCall p :: post) =
+    seq_annot (seq_model_call caller ep) m pre ++ SCall v :: seq_annot (seq_model_call caller ep) mt post /\
+  v = authorize policy (trust_of mt caller) ep /\
+  (trust_of mt caller = false -> ~ In ep open_spec -> v = false) /\
+  (In ep local_only_spec -> v = false) /\
+  (In ep trusted_spec -> v = trust_of mt caller) /\
+  (In ep open_spec -> v = true).
+Proof. intros Hc. cbv zeta. split; [apply seq_annot_split|]. exact (seq_model_call_spec caller ep (mode_after m pre) Hc). Qed.
+
+Lemma seq_call_okb_model caller ep mt : seq_call_okb caller ep mt (seq_model_call caller ep mt) = true.
+Proof. unfold seq_call_okb. destruct (N.eqb_spec caller 0) as [E|Hc]; [reflexivity|]. cbn [orb].
+  destruct (seq_model_call_spec caller ep mt Hc) as [_ [Hu [Hl [Ht _]]]].
+  destruct (seq_model_call caller ep mt) eqn:Ev.
+  - destruct (mem_str ep open_spec) eqn:Eo; [reflexivity|]. cbn [orb]. apply mem_str_false in Eo.
+    destruct (trust_of mt caller) eqn:Et; [|specialize (Hu eq_refl Eo); discriminate]. cbn [andb].
+    destruct (mem_str ep local_only_spec) eqn:El; [|reflexivity]. apply mem_str_in in El. specialize (Hl El). discriminate.
+  - destruct (trust_of mt caller) eqn:Et; [|reflexivity]. cbn [andb].
+    destruct (mem_str ep trusted_spec) eqn:Es; [|reflexivity]. apply mem_str_in in Es. specialize (Ht Es). discriminate. Qed.
+
+(* every trust mode, caller, endpoint name and sequence (any length, any interleaving): the model's own answers raise no code *)
+Lemma authseq_model_passes_monitor_l id m caller ep steps :
+  check_case (id, CAuthSeq m caller ep (seq_annot (seq_model_call caller ep) m steps)) = [].
+Proof. rewrite check_case_authseq.
+  rewrite (seq_forall_annot (seq_model_call caller ep) (fun mt p => Bool.eqb (seq_model_call caller ep mt) p)) by (intros; apply eqb_reflx).
+  rewrite (seq_forall_annot (seq_model_call caller ep) (seq_call_okb caller ep)) by (intros; apply seq_call_okb_model).
+  reflexivity. Qed.
+
+(* no code 11: at every call of the sequence, a remote caller not trusted at that moment was refused unless the endpoint is an
+   open one, a local-only endpoint was refused, and a caller trusted at that moment was let in on every trusted_spec endpoint *)
+Lemma authseq_monitor_sound_l id m caller ep steps :
+  no_code 11%N (check_case (id, CAuthSeq m caller ep steps)) -> caller <> 0%N ->
+  forall pre p post, steps = pre ++ SCall p :: post ->
+  let mt := mode_after m pre in
+  (trust_of mt caller = false -> ~ In ep open_spec -> p = false) /\
+  (In ep local_only_spec -> p = false) /\
+  (trust_of mt caller = true -> In ep trusted_spec -> p = true).
+Proof. rewrite check_case_authseq. intros H Hc pre p post E. cbv zeta. apply no11_fail11 in H. subst steps.
+  apply seq_forall_split in H. unfold seq_call_okb in H. apply N.eqb_neq in Hc. rewrite Hc in H. cbn [orb] in H.
+  destruct p.
+  - apply orb_true_iff in H. split; [|split; [|reflexivity]].
+    + intros Ht Ho. exfalso. destruct H as [H|H]; [apply mem_str_in in H; contradiction|]. rewrite Ht in H. discriminate.
+    + intros Hl. exfalso. destruct H as [H|H]; [apply mem_str_in in H; exact (open_not_local ep H Hl)|].
+      apply andb_true_iff in H. destruct H as [_ H]. apply negb_true_iff, mem_str_false in H. contradiction.
+  - split; [reflexivity|split; [reflexivity|]]. intros Ht Hs. exfalso. rewrite Ht in H. apply mem_str_in in Hs. rewrite Hs in H. discriminate. Qed.
+
+(* no code 1: every observed answer is the model's with the state at the time of the call *)
+Lemma authseq_agreement_eq_l id m caller ep steps :
+  no_code 1%N (check_case (id, CAuthSeq m caller ep steps)) -> seq_annot (seq_model_call caller ep) m steps = steps.
+Proof. rewrite check_case_authseq. intros H. apply no1_fail1 in H. now apply seq_forall_eqb_annot. Qed.
+
+Lemma authseq_agreement_sound_l id m caller ep steps :
+  no_code 1%N (check_case (id, CAuthSeq m caller ep steps)) ->
+  seq_annot (seq_model_call caller ep) m steps = steps /\
+  forall pre p post, steps = pre ++ SCall p :: post ->
+    p = call_allowed policy (N.eqb caller 0) (trust_of (mode_after m pre) caller) ep.
+Proof. intros H. split; [exact (authseq_agreement_eq_l id m caller ep steps H)|]. rewrite check_case_authseq in H. apply no1_fail1 in H.
+  intros pre p post E. subst steps. apply seq_forall_split in H. apply eqb_prop in H. now symmetry. Qed.
+
+(* ================================================================== *)
 (* every case kind at once: agreement with the model is enough        *)
 (* ================================================================== *)
 (* on ANY case (any kind, any input, any observation): if code 1 is absent - the implementation did what the model does - then
-   no code at all is produced: the specification-level monitors (code 2) never alarm on behaviour the model allows, and
+   no code at all is produced: the specification-level monitors (codes 2, 11) never alarm on behaviour the model allows, and
    "agrees with the model on this input" implies "satisfies the monitored property on this input" *)
 (* (the effect observations of the open endpoints have no model: they are judged by the hand-written effect table alone, code 10) *)
 Definition modelled (c : N * c07case) : bool := match snd c with CEffects _ _ _ _ => false | _ => true end.
 Lemma agreement_no_alarm_l c : modelled c = true -> no_code 1%N (check_case c) -> check_case c = [].
-Proof. destruct c as [id k]. destruct k as [m caller ep passed|m caller ep effs|l|l|ok|star l h obs|tp env h obs|star l h signer fwd relay_ok arrived]; intros Hm H; [|discriminate Hm|..].
+Proof. destruct c as [id k]. destruct k as [m caller ep passed|m caller ep steps|m caller ep effs|l|l|ok|star l h obs|tp env h obs|star l h signer fwd relay_ok arrived]; intros Hm H; [| |discriminate Hm|..].
   - pose proof (auth_agreement_sound_l _ _ _ _ _ H) as [E _]. subst passed. apply auth_model_passes_monitor_l.
+  - pose proof (authseq_agreement_eq_l id m caller ep steps H) as E. rewrite <- E. apply authseq_model_passes_monitor_l.
   - rewrite check_case_methods in *. apply no1_fail1 in H. rewrite H. reflexivity.
   - rewrite check_case_policy in *. apply no1_fail1 in H. rewrite H. reflexivity.
   - rewrite check_case_policy_valid in *. apply no1_fail1 in H. rewrite H. reflexivity.
